@@ -64,7 +64,7 @@ func Damage(r *prng.R, p *Prog) ([]byte, string) {
 			i = p.Toks[r.Intn(nt)].Start
 		}
 		lf := prng.Pick(r, LexFails)
-		out := append(append(append([]byte(nil), src[:i]...), (lf + " ")...), src[i:]...)
+		out := append(append(append([]byte(nil), src[:i]...), (lf+" ")...), src[i:]...)
 		return out, "token_damage"
 	}
 }
@@ -109,7 +109,7 @@ func WithLexFail(r *prng.R, p *Prog, early bool) ([]byte, int) {
 	}
 	lf := prng.Pick(r, LexFails[:15])
 	// surrounded by blanks so that it cannot merge with a neighbouring token
-	out := append(append(append([]byte(nil), p.Src[:at]...), (" " + lf + " ")...), p.Src[at:]...)
+	out := append(append(append([]byte(nil), p.Src[:at]...), (" "+lf+" ")...), p.Src[at:]...)
 	return out, at + 1
 }
 
